@@ -18,6 +18,12 @@ func TestVerif(t *testing.T) {
 func unitsA() []verifsim.Unit {
 	return []verifsim.Unit{
 		{
+			Name: "A.logtext", Props: []string{"C20"}, Run: runALogText,
+			Rule:    "one case = world-A history with the continuous recorder on and seeded failures of start/write/stop/disk-check/create on all three sinks; the injected error text looks like a format string (contains %20, 100%, %d); the daemon's log is captured and every line that carries the error text must carry it verbatim; non-trivial = at least two such lines",
+			Measure: "-",
+			Real:    realA, Stub: stubA,
+		},
+		{
 			Name: "AB.thr", Props: []string{"C05", "C06", "C04", "C17", "C15", "C11", "C12"}, Run: runAB,
 			Rule:    "one case = world-A history with long stretches of continuous motion, seeded throttle configuration (bucket 1-30 s, refill 1-90 s, minimum clip = min-secs+preview-secs as main.go wires it); real MotionProcessor -> real ThrottledRecorder (bucket on the simulated clock) -> tracing sink; executed with and without the throttle; non-trivial = frames reached storage and (a throttle cut or >= 2 files); distinct = throttle configuration + files/cuts + event string",
 			Measure: "ab = (capacity, minimum clip, cuts, files)",
